@@ -27,12 +27,6 @@ def load(property_id=None):
     if os.path.exists(PATH):
         with open(PATH) as fh:
             docs.append(json.load(fh))
-    # staging area used while several properties are developed in parallel; merged into
-    # known_findings.json before release
-    import glob
-    for p in sorted(glob.glob(os.path.join(HERE, "known_findings.d", "*.json"))):
-        with open(p) as fh:
-            docs.append(json.load(fh))
     out = []
     for f in [f for doc in docs for f in doc.get("findings", [])]:
         if property_id is None or f.get("property") == property_id:
